@@ -726,6 +726,8 @@ def check_c20(tier, seed):
             opts.append(["-c" if mode == "ctr" else "-t", spell(tw, 1)])
         if d == "dec":
             opts.append(["-d"])
+            if idx % 4 == 3:
+                opts.append(["-d"])     # a flag given twice is still the flag (a wrapper script that always passes -d, and the user does too)
         if idx % 3 == 1:
             opts = opts[1:] + opts[:1]
         elif idx % 3 == 2:
